@@ -355,8 +355,9 @@ fn ast_hashes(ast: &Ast) -> (u64, u64) {
 
 // ---------------------------------------------------------------------------------------------
 // seeded program generator (well-formedness of the bytecode matters; programs need not terminate)
-// Envelope: no `return`/`break`/`continue` inside list/tuple/string-interpolation expressions
-// (documented shape of F-C05-5).
+// Since 2f5d1ea (F-C05-5 repaired) conditional `break` / `continue` / `return` are also generated in expression
+// position inside list / tuple literals and interpolations (`elem`); `no_jump` only keeps jump STATEMENTS out of
+// the one-line expression contexts.
 // ---------------------------------------------------------------------------------------------
 
 struct Gen {
